@@ -258,6 +258,7 @@ type triggerCtx struct {
 	err      error
 	done     chan struct{}
 	flavour  error
+	future   bool // carries a deadline far in the future
 	errCalls int
 	atCall   int    // end the context just before the atCall-th Err() call (0 = never)
 	onEnd    func() // called (outside the lock) when atCall fires
@@ -266,9 +267,29 @@ type triggerCtx struct {
 func newTriggerCtx(flavour error) *triggerCtx {
 	return &triggerCtx{done: make(chan struct{}), flavour: flavour}
 }
+
+// triggerFlavours: how a context may end - cancelled, deadline expired, or cancelled early
+// although it carries a deadline that still lies far in the future (WithTimeout + cancel()).
+var triggerFlavours = []string{"cancel", "deadline", "cancel_before_deadline"}
+
+func newTriggerCtxN(i int) (*triggerCtx, string) {
+	switch n := triggerFlavours[i%3]; n {
+	case "deadline":
+		return newTriggerCtx(context.DeadlineExceeded), n
+	case "cancel_before_deadline":
+		t := newTriggerCtx(context.Canceled)
+		t.future = true
+		return t, n
+	default:
+		return newTriggerCtx(context.Canceled), n
+	}
+}
 func (t *triggerCtx) Deadline() (time.Time, bool) {
 	if t.flavour == context.DeadlineExceeded {
 		return time.Unix(1, 0), true
+	}
+	if t.future {
+		return time.Date(2200, 1, 1, 0, 0, 0, 0, time.UTC), true
 	}
 	return time.Time{}, false
 }
